@@ -290,7 +290,37 @@ pub fn render(schema: &s::Document, pol: Policy) -> J {
 }
 
 // ---------------------------------------------------------------- structural mutations
-pub const MUTATIONS: &[&str] = &["remove-member", "change-kind", "wrong-type", "duplicate-member", "null-required", "extra-member", "reorder-members"];
+pub const MUTATIONS: &[&str] = &["remove-member", "change-kind", "wrong-type", "duplicate-member", "null-required", "extra-member", "reorder-members", "unicode-strings"];
+
+/// texts with 1-, 2-, 3- and 4-byte characters, escapes and control characters
+const TEXTS: &[&str] = &["plain", "caf\u{e9}", "\u{20ac} 12", "an emoji \u{1F600} here", "\u{1F600}", "x\u{1F600}\u{1F601}y", "q\"uote\\back", "tab\tnl\nend", "\u{7}bell", "\u{10FFFF}",
+    "\u{e9}\u{20ac}\u{1F600}", "ab\u{1F600}", "abc\u{1F600}", ""];
+
+fn set_strings(j: &mut J, rng: &mut crate::rng::Rng) {
+    match j {
+        J::Obj(l) => {
+            for (k, v) in l.iter_mut() {
+                if (k == "description" || k == "deprecationReason" || k == "specifiedByURL") && matches!(v, J::Null | J::Str(_)) {
+                    if rng.pct(60) {
+                        let mut t = String::new();
+                        for _ in 0..rng.range(1, 3) {
+                            t.push_str(*rng.pick(TEXTS));
+                        }
+                        *v = J::Str(t);
+                    }
+                } else {
+                    set_strings(v, rng);
+                }
+            }
+        }
+        J::Arr(l) => {
+            for v in l.iter_mut() {
+                set_strings(v, rng);
+            }
+        }
+        _ => {}
+    }
+}
 
 fn collect_paths(j: &J, cur: &mut Vec<usize>, out: &mut Vec<Vec<usize>>) {
     match j {
@@ -325,6 +355,10 @@ fn at_mut<'a>(j: &'a mut J, path: &[usize]) -> &'a mut J {
 
 pub fn mutate(j: &J, kind: &str, rng: &mut crate::rng::Rng) -> Option<J> {
     let mut out = j.clone();
+    if kind == "unicode-strings" {
+        set_strings(&mut out, rng);
+        return Some(out);
+    }
     let mut paths = vec![];
     collect_paths(j, &mut vec![], &mut paths);
     if paths.is_empty() {
@@ -421,7 +455,7 @@ pub fn run_introspect_text(text: &str, offsets_budget: usize) -> Vec<String> {
     // every chunking gives the same outcome as the full string
     let bytes = text.as_bytes();
     let mut chunks_ok = true;
-    for c in [1usize, 2, 7, 4096, bytes.len().max(1)] {
+    for c in [1usize, 2, 3, 4, 5, 7, 13, 4096, bytes.len().max(1)] {
         let r = std::panic::catch_unwind(|| parse_introspection(Chunked { data: bytes, pos: 0, chunk: c, fail_at: None }));
         match r {
             Ok(r) => {
